@@ -39,7 +39,7 @@ def gen_cases(tier: str, seed: int) -> list[dict]:
 
 
 def gen_network(rng) -> dict:  # noqa: ANN001
-    topo = rng.choice(["chain", "branch", "merge", "split", "cycle", "dimer", "cleavage", "split3", "merge3", "double", "double_efflux", "double_influx"])
+    topo = rng.choice(["chain", "branch", "merge", "split", "cycle", "dimer", "cleavage", "split3", "merge3", "double", "double_efflux", "double_influx", "dimer_merge", "dimer_merge"])
     v = round(rng.uniform(0.5, 2.0), 3)
     v2 = round(rng.uniform(0.3, 1.5), 3)
     if topo == "chain":
@@ -61,6 +61,11 @@ def gen_network(rng) -> dict:  # noqa: ANN001
     elif topo == "merge3":
         names = ["A", "B", "D", "C"]
         rx = [("vina", {"A": 1}, v), ("vinb", {"B": 1}, v), ("vind", {"D": 1}, v), ("v1", {"A": -1, "B": -1, "D": -1, "C": 1}, v), ("vout", {"C": -1}, v)]
+    elif topo == "dimer_merge":
+        # a compound that takes part twice next to another substrate (its occurrences among the rate's arguments need not be
+        # adjacent, nor come first)
+        names = ["A", "B", "C"]
+        rx = [("vina", {"A": 1}, 2 * v), ("vinb", {"B": 1}, v), ("v1", {"A": -2, "B": -1, "C": 1}, v), ("vout", {"C": -1}, v)]
     elif topo == "dimer":
         names = ["A", "B"]
         rx = [("vin", {"A": 1}, 2 * v), ("v1", {"A": -2, "B": 1}, v), ("vout", {"B": -1}, v)]
@@ -95,6 +100,9 @@ def gen_network(rng) -> dict:  # noqa: ANN001
     if topo in ("dimer", "cleavage"):
         labels["A"] = rng.randint(1, 2)
         labels["B"] = 2 * labels["A"]
+    if topo == "dimer_merge":
+        labels = {"A": 1, "B": rng.randint(1, 2)}
+        labels["C"] = 2 * labels["A"] + labels["B"] if rng.random() < 0.7 else rng.randint(1, 3)
     if topo == "merge":
         labels["C"] = labels["A"] + labels["B"] if rng.random() < 0.7 else rng.randint(1, 3)
     if topo == "split3":
@@ -112,6 +120,8 @@ def gen_network(rng) -> dict:  # noqa: ANN001
     noninv = False
     for name, st, flux in rx:
         subs = [c for c, n in st.items() if n < 0 for _ in range(-n)]
+        if len(set(subs)) > 1 and rng.random() < 0.6:
+            rng.shuffle(subs)  # (mass action: the order of the substrates among the rate's arguments is free)
         k = flux
         for s in subs:
             k /= pools[s]
